@@ -32,7 +32,10 @@ RULE = (
 ASSUMPTIONS = ["git 2.39 porcelain v1 status; repository without remote; commit identity and dates fixed by the harness"]
 
 STATUSES = ("clean", "modified-unstaged", "modified-staged", "staged+unstaged", "added", "deleted-staged", "deleted-unstaged", "renamed", "untracked")
-NAMINGS = {"plain": ("a.txt", "other.txt"), "blank": ("a b.txt", "o ther.txt"), "non-ascii": ("ä.txt", "öther.txt")}
+NAMINGS = {"plain": ("a.txt", "other.txt"), "blank": ("a b.txt", "o ther.txt"), "non-ascii": ("ä.txt", "öther.txt"),
+            "dot-slash": ("a.txt", "other.txt"), "subdir-dot": ("a.txt", "other.txt")}
+# how the configuration spells the pattern file (the file itself has the canonical name)
+CONFIG_SPELLING = {"dot-slash": "./a.txt", "subdir-dot": "sub/../a.txt"}
 
 
 def bounds(tier, seed):
@@ -50,6 +53,8 @@ def explore(tier, seed):
         for ps in STATUSES:
             chunks.append(("blank", "bumpver.toml", ps, ("clean", "modified-unstaged")))
             chunks.append(("non-ascii", "bumpver.toml", ps, ("clean",)))
+            chunks.append(("dot-slash", "bumpver.toml", ps, ("clean", "untracked")))
+            chunks.append(("subdir-dot", "setup.cfg", ps, ("clean",)))
     return pool.run_chunks(run_chunk, chunks)
 
 
@@ -109,7 +114,7 @@ def run_case(st, base, naming, fmt, ps, us, allow, crowd=0):
         shutil.rmtree(d)
     os.makedirs(d)
     os.chdir(d)
-    cfg = pt.config_text(fmt, "MAJOR.MINOR.PATCH", "1.2.3", [(pfile, ["ver={version};"])], extra="commit = true\ntag = true\npush = false"
+    cfg = pt.config_text(fmt, "MAJOR.MINOR.PATCH", "1.2.3", [(CONFIG_SPELLING.get(naming, pfile), ["ver={version};"])], extra="commit = true\ntag = true\npush = false"
                          if fmt.endswith(".toml") else "commit = True\ntag = True\npush = False")
     files = {fmt: cfg.encode("utf-8"), pfile: b"ver=1.2.3;\n", ufile: b"unrelated\n"}
     crowd_files = [f"0crowd{i:02d}.txt" for i in range(crowd)]  # sort before the pattern file
@@ -121,6 +126,9 @@ def run_case(st, base, naming, fmt, ps, us, allow, crowd=0):
     if us in ("added", "untracked"):
         not_committed.add(ufile)
     gw.init()
+    if naming == "subdir-dot":
+        os.makedirs("sub")
+        files["sub/keep.txt"] = b"x\n"
     world.write_tree({k: v for k, v in files.items() if k not in not_committed})
     gw.commit_all("init")
     world.write_tree({k: v for k, v in files.items() if k in not_committed})
